@@ -434,6 +434,46 @@ fn flips(blob: &[u8], thorough: bool, rng: &mut Prng, edges: &[usize]) -> Vec<(u
     v
 }
 
+/// Many seal -> parse -> unseal round trips to one recipient: outcomes that depend on the ephemeral value (a rare shape of the
+/// ephemeral public key, of the shared secret, of the RSA ciphertext) need numbers.  Only failures are recorded, as Law events.
+pub fn bulk_pke<B: Backend>(rec: &mut Recorder, st: &mut Stats, cfg: &Cfg) {
+    let n: usize = match (B::VER, cfg.thorough) {
+        (1, false) => 40,
+        (1, true) => 600,
+        (3, false) => 1500,
+        (3, true) => 20000,
+        (_, false) => 12000,
+        (_, true) => 150000,
+    };
+    let rcp = &keys::pke_pairs::<B>(1)[0];
+    let (Ok(pk), Ok(sk)) = (key_from_bytes::<B::V, paseto_core::version::PkePublic>(&rcp.public), key_from_bytes::<B::V, paseto_core::version::PkeSecret>(&rcp.secret)) else { return };
+    let mut rng = Prng::new(cfg.seed, &format!("c05-bulk-{}", B::NAME));
+    rec.emit(json!({"ev":"Reset","scenario":format!("bulk-seal-{}", B::NAME)}));
+    let mut bad = 0u64;
+    for i in 0..n {
+        let kb = rng.bytes(32);
+        let r = catch_unwind(AssertUnwindSafe(|| -> Result<Vec<u8>, String> {
+            let k: LocalKey<B> = key_from_bytes(&kb).map_err(|e| errname(&e).to_string())?;
+            let text = k.seal(&pk).map_err(|e| format!("seal: {}", errname(&e)))?.to_string();
+            let back = SealedKey::<B::V>::from_str(&text).map_err(|e| format!("parse: {}", errname(&e)))?.unseal(&sk).map_err(|e| format!("unseal: {} of {text}", errname(&e)))?;
+            Ok(key_bytes(&back))
+        }));
+        let got = match r {
+            Ok(Ok(b)) => b,
+            Ok(Err(e)) => e.into_bytes(),
+            Err(_) => b"panic".to_vec(),
+        };
+        st.wraps += 1;
+        st.pke_seals += 1;
+        if got != kb && bad < 20 {
+            bad += 1;
+            let (l, r) = (rec.intern(&got), rec.intern(&kb));
+            rec.emit(json!({"ev":"Law","name":"sealed-key-round-trip","lhs":l,"rhs":r,"be":B::NAME,"i":i}));
+        }
+    }
+    rec.emit(json!({"ev":"Note","what":"bulk seal/unseal round trips","be":B::NAME,"n":n,"failed":bad}));
+}
+
 pub fn tamper<B: Backend>(rec: &mut Recorder, st: &mut Stats, cfg: &Cfg) {
     let only_relabel = cfg.mode == "relabel";
     ONLY_RELABEL.with(|c| *c.borrow_mut() = only_relabel);
@@ -551,6 +591,17 @@ pub fn tamper<B: Backend>(rec: &mut Recorder, st: &mut Stats, cfg: &Cfg) {
         }
         pw_unwrap::<B, Local>(rec, st, &blob, pass, json!({"cls":"relabel","to":"local"}));
         relabel_all(rec, st, "pw", "secret", &blob, pass, &w);
+    }
+    // passwords are byte strings, not text: a password that is not valid UTF-8 is bound as tightly as any other
+    {
+        let bin: &[u8] = b"hunter2\xff\xfe";
+        if let Some((_, blob)) = pw_wrap::<B, Local>(rec, st, lk, bin, Some(cost), None) {
+            pw_unwrap::<B, Local>(rec, st, &blob, bin, json!({"cls":"identity"}));
+            for p2 in [&b"hunter2\xff\xfd"[..], &b"hunter2\xfe\xfe"[..], &b"hunter2\xff"[..], &b"hunter2\x80\x80"[..], &b"hunter2\xc3\x28"[..],
+                       "hunter2\u{FFFD}\u{FFFD}".as_bytes(), "hunter2\u{FFFD}".as_bytes(), &b"hunter2"[..], &b"hunter2\xff\xfe\xff"[..]] {
+                pw_unwrap::<B, Local>(rec, st, &blob, p2, json!({"cls":"other-password","binary":true}));
+            }
+        }
     }
     // a work factor of zero is outside the valid range (RFC 8018: a positive iteration count; Argon2: at least one pass): a backend
     // may refuse to wrap with it, but a blob it does produce must still be bound to its password.  The blob is not recorded as an
@@ -809,7 +860,10 @@ pub fn run(rec: &mut Recorder, cfg: &Cfg) -> Stats {
     fn one<B: Backend>(rec: &mut Recorder, st: &mut Stats, cfg: &Cfg) {
         CURRENT_VER.with(|c| *c.borrow_mut() = B::VER);
         match cfg.mode.as_str() {
-            "roundtrip" => roundtrip::<B>(rec, st, cfg),
+            "roundtrip" => {
+                roundtrip::<B>(rec, st, cfg);
+                bulk_pke::<B>(rec, st, cfg);
+            }
             "tamper" | "relabel" => tamper::<B>(rec, st, cfg),
             "faults" => faults::<B>(rec, st, cfg),
             "fresh" => fresh::<B>(rec, st, cfg),
